@@ -190,6 +190,37 @@ def extract(repo, failures):
                                  and fl2.find("log_statement") < fl2.find("backend_thread_flushed.load()"))
     # F12: only sinks of loggers that are still valid are flushed (the theorem says "every ACTIVE sink")
     d["flushOnlyValidLoggers"] = bool(fl and "is_valid_logger" in fl)
+    # sink_min_flush_interval (C06 / F33): which interval each call site of _flush_and_run_active_sinks passes.
+    # idle branch of _poll: (true, _options.sink_min_flush_interval); Flush event and _exit: (false, milliseconds{0});
+    # the gate itself: interval 0 -> always flush, else flush iff (steady now - _last_sink_flush_time) > interval, then
+    # _last_sink_flush_time = now; the model's `flushGate` / `flushSinks` call sites mirror exactly this
+    zero_call = r"_flush_and_run_active_sinks\(\s*false\s*,\s*std::chrono::milliseconds\s*\{\s*0\s*\}\s*\)"
+    pollb = func_body(bw, r"void\s+_poll\s*\(\s*\)\s*\{")
+    d["idleFlushPassesOption"] = bool(pollb and re.search(
+        r"_flush_and_run_active_sinks\(\s*true\s*,\s*_options\.sink_min_flush_interval\s*\)", pollb)
+        and pollb.count("_flush_and_run_active_sinks(") == 1)
+    d["exitFlushIgnoresInterval"] = bool(ex and re.search(zero_call, ex) and ex.count("_flush_and_run_active_sinks(") == 1)
+    if fl:
+        flc = re.sub(r"\s+", " ", fl)
+        d["flushGateShape"] = bool(re.search(
+            r"bool should_flush_sinks\{false\}; if \(sink_min_flush_interval\.count\(\)\) \{ if \(auto const now = "
+            r"std::chrono::steady_clock::now\(\); \(now - _last_sink_flush_time\) > sink_min_flush_interval\) \{ "
+            r"should_flush_sinks = true; _last_sink_flush_time = now; \} \} else \{ should_flush_sinks = true; \}", flc)
+            and flc.count("_last_sink_flush_time") == 2 and flc.count("should_flush_sinks = ") == 2)
+    else:
+        d["flushGateShape"] = False
+    # every call site of _flush_and_run_active_sinks in the backend worker is one of the modelled ones
+    n_calls = len(re.findall(r"(?<!void )_flush_and_run_active_sinks\(", bw))
+    clb = func_body(bw, r"void\s+_cleanup_invalidated_loggers\s*\(\s*\)\s*\{")
+    # F33: _cleanup_invalidated_loggers starts with `if (has_invalidated_loggers()) _flush_and_run_active_sinks(false, 0ms)`,
+    # before LoggerManager::cleanup_invalidated_loggers erases anything
+    if clb is None:
+        d["flushBeforeLoggerErase"] = False
+    else:
+        clc = re.sub(r"\s+", " ", clb)
+        m33 = re.search(r"if \(_logger_manager\.has_invalidated_loggers\(\)\) \{ " + zero_call.replace("\\s*", " ?") + r"; \}", clc)
+        d["flushBeforeLoggerErase"] = bool(m33 and 0 <= m33.start() < clc.find("_logger_manager.cleanup_invalidated_loggers("))
+    d["flushCallSitesAllModelled"] = n_calls == 3 + (1 if d["flushBeforeLoggerErase"] else 0)
 
     # ---- C16: level / filter decision logic (LogLevel.h, LoggerBase.h, LogMacros.h, Sink.h, TransitEvent.h) ----
     levels = []
